@@ -132,11 +132,11 @@ class PoolWorld(HistoryWorld):
         if leg == 'deep':
             return {'steps': 6, 'callers': 1, 'arena': 2, 'deep': [1022, 1023][run_index % 2]}
         if leg == 'boundary':
-            shapes = ['cells255', 'cells256', 'cells257', 'pay255', 'pay256', 'pay65535', 'pay65536', 'diamond', 'ladder', 'wide-shared', 'exotic', 'two-same-refs']
+            shapes = ['cells255', 'cells256', 'cells257', 'pay255', 'pay256', 'pay65535', 'pay65536', 'diamond', 'ladder', 'wide-shared', 'exotic', 'two-same-refs', 'proof-next-to-data', 'update-skeleton-vs-full']
             return {'steps': 8, 'callers': 1, 'arena': 1, 'shape': shapes[run_index % len(shapes)]}
         if leg == 'huge':
             return {'steps': 3, 'callers': 1, 'arena': 1, 'shape': 'cells%d' % (65534 + run_index % 4)}
-        return {'steps': rng.choice([20, 40, 80]), 'callers': 1, 'arena': rng.choice([3, 6, 12]), 'exotic': self.prop == 'C03' and rng.random() < 0.4}
+        return {'steps': rng.choice([20, 40, 80]), 'callers': 1, 'arena': rng.choice([3, 6, 12]), 'exotic': rng.random() < (0.4 if self.prop == 'C03' else 0.2)}
 
     def new_state(self, ctx):
         reset_hidden_state()
@@ -178,7 +178,7 @@ class PoolWorld(HistoryWorld):
             q.append({'op': 'arena_cell', 'bits': _rbits(rng, nb), 'refs': refs, 'caller': -1})
         if cfg.get('exotic') or self.prop == 'C08':
             for _ in range(rng.randint(1, 3)):
-                q.append({'op': 'arena_exotic', 'kind': rng.choice(['pruned', 'proof', 'update', 'library']), 'c': rng.randrange(1 << 16),
+                q.append({'op': 'arena_exotic', 'kind': rng.choice(['pruned', 'proof', 'update', 'library', 'skeleton-pair', 'skeleton-pair']), 'c': rng.randrange(1 << 16),
                           'd': rng.randrange(1 << 16), 'caller': -1})
 
     def _ref(self, rng):
@@ -188,8 +188,11 @@ class PoolWorld(HistoryWorld):
         r = rng.random()
         nb = rng.choice(BITLENS + [rng.randint(0, 1023)] * 8)
         refs = [self._ref(rng) for _ in range(rng.choice([0, 0, 1, 1, 2, 3, 4]))]
-        if r < 0.25:
+        if r < 0.18:
             return {'op': 'build', 'bits': _rbits(rng, nb), 'refs': refs, 'caller': caller}
+        if r < 0.25:
+            return {'op': 'build_more', 'bits': _rbits(rng, rng.choice([0, 1, 3, 8, 13, 64])), 'ref': self._ref(rng) if rng.random() < 0.3 else None,
+                    'fresh': rng.random() < 0.3, 'caller': caller}
         if r < 0.40:
             return {'op': 'direct', 'bits': _rbits(rng, nb), 'refs': refs, 'plain': rng.random() < 0.5, 'caller': caller}
         if r < 0.52:
@@ -309,6 +312,13 @@ class PoolWorld(HistoryWorld):
                 if a.mask:
                     return
                 twin = merkle_proof_of(RCell('1010', (pruned_of(a, 1), b) if b.mask == 0 else (pruned_of(a, 1),)))
+            elif kind == 'skeleton-pair':
+                # a cell next to its own pruned skeleton: both have the same level-0 hash but are different cells
+                if not a.refs or a.refs[0].mask or a.special:
+                    return
+                skel = RCell(a.bits, (pruned_of(a.refs[0], 1),) + tuple(a.refs[1:]))
+                twin = RCell('11', (merkle_proof_of(skel), a))
+                ctx.probe('cell-next-to-its-pruned-skeleton')
             elif kind == 'proof':
                 twin = merkle_proof_of(a)
             elif kind == 'update':
@@ -322,6 +332,10 @@ class PoolWorld(HistoryWorld):
             return
         ctx.probe('exotic-cells-in-pool')
         self._register(st, st.arena, c, twin, ctx, 'exotic')
+        if kind == 'pruned' and self.prop != 'C08':
+            # the ordinary level-1 cell under the proof joins the pool too (its hash is the hash at ITS level)
+            ctx.probe('ordinary-cell-of-level-1')
+            self._register(st, st.arena, c.refs[0], twin.refs[0], ctx, 'exotic-child')
 
     def op_arena_chain(self, st, op, ctx, k):
         cur_l = Builder().store_uint(5, 3).end_cell()
@@ -371,6 +385,37 @@ class PoolWorld(HistoryWorld):
         if not ok:
             return 'raised:' + type(c).__name__
         self._register(st, st.callers[k].cells, c, twin, ctx, 'build')
+        return c.hash.hex()
+
+    def op_build_more(self, st, op, ctx, k):
+        """A builder that lives across operations: end_cell, keep writing, end_cell again."""
+        cal = st.callers[k]
+        pb = getattr(cal, 'pbuilder', None)
+        if pb is None or op.get('fresh'):
+            pb = cal.pbuilder = {'lib': Builder(), 'bits': '', 'refs': []}
+        if len(pb['bits']) + len(op['bits']) > 1023:
+            pb = cal.pbuilder = {'lib': Builder(), 'bits': '', 'refs': []}
+        e = st.entry(k, op['ref']) if op.get('ref') else None
+        if e is not None and (e['twin'] is None or len(pb['refs']) >= 4):
+            e = None
+        try:
+            twin = RCell(pb['bits'] + op['bits'], [x['twin'] for x in pb['refs']] + ([e['twin']] if e else []))
+        except RCellError:
+            return 'model-refuses'
+        def mk():
+            pb['lib'].store_bits(op['bits'])
+            if e:
+                pb['lib'].store_ref(e['lib'])
+            return pb['lib'].end_cell()
+        ok, c = call(mk)
+        if not ok:
+            cal.pbuilder = None
+            return 'raised:' + type(c).__name__
+        pb['bits'] += op['bits']
+        if e:
+            pb['refs'].append(e)
+        ctx.probe('builder-reused-after-end_cell')
+        self._register(st, cal.cells, c, twin, ctx, 'build_more')
         return c.hash.hex()
 
     def op_direct(self, st, op, ctx, k):
@@ -486,7 +531,7 @@ class PoolWorld(HistoryWorld):
             if not ok or d != t.depth_at(l):
                 self.V(ctx, 'depth', route, klass, 'get_depth(%d) = %r, reference %d (route %s, %d refs)' % (l, d, t.depth_at(l), route, len(t.refs)))
                 return
-        ok, h = call(c.calculate_representation_hash)
+        ok, h = call(c.calculate_representation_hash) if t.mask == 0 else (True, c.hash)  # carve-out: level > 0 hashes are chained (C02's subject)
         if not ok or h != c.hash:
             self.V(ctx, 'recomputed-hash', route, 'with-refs' if t.refs else 'no-refs',
                    'calculate_representation_hash() %s; cached hash %s' % (('raised %r' % h) if not ok else h.hex(), c.hash.hex()))
@@ -736,6 +781,19 @@ class PoolWorld(HistoryWorld):
         ctx.evaluated(len(st.live))
 
     def finish(self, st, ctx):
+        if self.prop == 'C01':
+            for e in st.arena + st.callers[0].cells:
+                if e['twin'] is None or e['twin'].special:
+                    continue
+                c = e['lib']
+                ok, now = call(rcell_from_lib, c)
+                if not ok:
+                    continue
+                if now.hash != c.hash or now.hash != e['twin'].hash:
+                    self.V(ctx, 'hash-of-current-content', 'later-operations', 'bits-changed' if now.bits != e['twin'].bits else 'hash',
+                           'at the end of the history a cell reports hash %s but its data (%d bits, %d refs) has TON hash %s (created with %d bits)'
+                           % (c.hash.hex()[:16], len(now.bits), len(now.refs), now.hash.hex()[:16], len(e['twin'].bits)))
+                    return
         if self.prop != 'C08':
             return
         active = [i for i, c in enumerate(st.callers) if c.log]
@@ -796,7 +854,7 @@ class Subctx:
     obs = probe
 
 
-C08_OPS = ['create', 'create', 'to_boc', 'order', 'order', 'hash', 'eq', 'parse_load', 'builder_store', 'from_builder', 'parse_dict', 'mk_dict', 'vm', 'parse_blob', 'repr', 'tlb_parse']
+C08_OPS = ['create', 'create', 'create', 'to_boc', 'order', 'order', 'hash', 'eq', 'parse_load', 'builder_store', 'from_builder', 'parse_dict', 'mk_dict', 'vm', 'parse_blob', 'repr', 'tlb_parse']
 
 
 def _snapdiff(a, b):
@@ -896,6 +954,16 @@ def make_shape(shape, rng):
         mids = [RCell(tlb.enc_uint(i, 16), tuple(rng.sample(shared, rng.randint(1, 4)))) for i in range(12)]
         tops = [RCell(tlb.enc_uint(i, 24), tuple(rng.sample(mids, 4))) for i in range(4)]
         return RCell('', tuple(tops))
+    if shape == 'proof-next-to-data':
+        a, b = RCell('1100', (leaf(1), leaf(2))), leaf(3)
+        full = RCell('1010', (a, b))
+        skel = RCell('1010', (pruned_of(a, 1), b))
+        return RCell('', (merkle_proof_of(skel), full))
+    if shape == 'update-skeleton-vs-full':
+        a, b = RCell('1100', (leaf(1), leaf(2))), leaf(3)
+        old_skel = RCell('1010', (pruned_of(a, 1), pruned_of(b, 1)))
+        new_full = RCell('1010', (a, pruned_of(b, 1)))
+        return RCell('1', (merkle_update_of(old_skel, new_full), RCell('1010', (a, b))))
     if shape == 'exotic':
         a = RCell('1100', (leaf(1), leaf(2)))
         b = RCell('0011', (leaf(3),))
